@@ -260,3 +260,22 @@ def guards(ctx, fn):
     if g is None:
         g = c[fn.path] = Guards(ctx, fn)
     return g
+
+
+def expand_var(f, p, pr=None):
+    """If p is `var:NAME` (a multiply-defined named local), the provenance of each of its definitions."""
+    import re as _re
+    m = _re.match(r"^var:(\w+)$", p)
+    if not m:
+        return [p]
+    pr = pr or Prov(f)
+    names = {nm: l for l, nm in f.debug_names().items()}
+    l = names.get(m.group(1))
+    if l is None:
+        return [p]
+    out = []
+    for d in pr.defs.get(l, []):
+        dp = pr._def(d, 0, ())
+        if dp != p:
+            out.append(dp)
+    return out or [p]
